@@ -109,12 +109,11 @@ func walk(b []byte) ([]field, bool) {
 	pos := 48
 	for pos+4 <= len(b) {
 		typ, l := binary.BigEndian.Uint16(b[pos:]), int(binary.BigEndian.Uint16(b[pos+2:]))
+		if typ == 0x404 && l >= 4 {
+			l = len(b) - pos // the authenticator's own extension length is neither authenticated nor needed to locate its parts
+		}
 		if l < 4 || pos+l > len(b) {
-			if typ == 0x404 && l >= 4 {
-				l = len(b) - pos // the authenticator's own length is not needed to locate its parts
-			} else {
-				return fs, false
-			}
+			return fs, false
 		}
 		fs = append(fs, field{typ, b[pos+4 : pos+l], pos})
 		if typ == 0x404 {
